@@ -23,6 +23,10 @@ from pathlib import Path
 VERIF = Path(__file__).resolve().parent.parent
 REPO = Path(os.environ.get('AEIC_VERIF_REPO', '/repo')).resolve()
 WORK = VERIF / '.work'
+# Runs against a scratch copy (sensitivity experiments) must not overwrite the
+# evidence and replay files of the real tree.
+SCRATCH_RUN = 'AEIC_VERIF_REPO' in os.environ and REPO != Path('/repo')
+OUT = (WORK / 'scratch-run') if SCRATCH_RUN else VERIF
 GUARD = 'MIT_LAE_AEIC_VERIF'
 
 
@@ -39,13 +43,18 @@ class Violation(AssertionError):
         self.detail = detail
 
 
+class AlreadyReported(Exception):
+    """Raised by ctx.fail for a signature already reported in this run: the
+    case is abandoned (counted as passing) and the search goes on."""
+
+
 def _pass_through():
     try:
         from hypothesis.errors import UnsatisfiedAssumption, StopTest
 
-        return (Violation, HarnessError, UnsatisfiedAssumption, StopTest)
+        return (Violation, HarnessError, AlreadyReported, UnsatisfiedAssumption, StopTest)
     except ImportError:  # pragma: no cover
-        return (Violation, HarnessError)
+        return (Violation, HarnessError, AlreadyReported)
 
 
 # Exceptions a property body must never swallow: put
@@ -227,6 +236,7 @@ class Ctx:
         self.budget_s: float | None = None
         self._workdir: Path | None = None
         self._case_n = 0
+        self.in_machine = False
         self.first_fail_t: float | None = None  # per search round
         self.best_fail: dict | None = None
 
@@ -294,9 +304,11 @@ class Ctx:
         if sig in self.session_seen:
             # already reported in this run; abandon this case and keep
             # searching for other causes
-            import hypothesis
+            if self.in_machine:
+                import hypothesis
 
-            hypothesis.reject()
+                hypothesis.reject()
+            raise AlreadyReported(sig)
         self.last_fail = {
             'signature': sig,
             'detail': detail[:2000],
@@ -344,7 +356,7 @@ class Ctx:
             lf = self.best_fail['rec']
         sig = lf['signature']
         self.session_seen.add(sig)
-        rdir = VERIF / 'replays' / self.pid
+        rdir = OUT / 'replays' / self.pid
         rdir.mkdir(parents=True, exist_ok=True)
         path = rdir / f'{hashlib.md5(sig.encode()).hexdigest()[:10]}.json'
         rec = {
@@ -419,8 +431,8 @@ class Ctx:
             'wall_s': round(time.time() - self.t0, 2),
             'violations': len(self.violations),
         }
-        d = VERIF / 'evidence'
-        d.mkdir(exist_ok=True)
+        d = OUT / 'evidence'
+        d.mkdir(parents=True, exist_ok=True)
         (d / f'{self.pid}.json').write_text(json.dumps(ev, indent=1, sort_keys=True))
         return ev
 
@@ -468,9 +480,12 @@ def run_given(ctx: Ctx, strategy, body, max_examples: int, salt: int = 0, shrink
     signatures (each shrunk), so one shallow defect does not hide the rest."""
     from hypothesis import given, seed
 
+    ctx.in_machine = False
     rounds = 0
     while rounds < MAX_DISTINCT_VIOLATIONS:
         rounds += 1
+        if rounds > 1:
+            max_examples = max(10, max_examples // 2)  # later rounds only look for further causes
 
         ctx.new_round()
 
@@ -479,7 +494,10 @@ def run_given(ctx: Ctx, strategy, body, max_examples: int, salt: int = 0, shrink
         @given(strategy)
         def test(case):
             ctx.reject_if_shrink_expired()
-            body(case)
+            try:
+                body(case)
+            except AlreadyReported:
+                return
 
         try:
             test()
@@ -513,10 +531,13 @@ def run_machine(ctx: Ctx, machine_cls, max_examples: int, steps: int, salt: int 
     from hypothesis.stateful import run_state_machine_as_test
 
     machine_cls.ctx = ctx
+    ctx.in_machine = True
     rounds = 0
     while rounds < MAX_DISTINCT_VIOLATIONS:
         rounds += 1
         ctx.new_round()
+        if rounds > 1:
+            max_examples = max(10, max_examples // 2)  # later rounds only look for further causes
         seeded = seed(ctx.hseed(salt + rounds - 1))(machine_cls)
         try:
             run_state_machine_as_test(seeded, settings=_settings(max_examples, steps, shrink))
